@@ -267,6 +267,18 @@ pub fn generate(prop: &str, thorough: bool, rng: &mut Rng) -> Case {
             if rng.chance(6, 10) {
                 let n_ops = (6 + rng.below(24)) * scale;
                 clients.push(gen_ops(rng, n_ops, keys, &mix, &mut vc));
+                cfg.insert("stepwise".into(), 1);
+                // the disk tier hands a disk-only piece back now and then
+                if rng.chance(1, 3) {
+                    for _ in 0..1 + rng.below(3) {
+                        let at = rng.below(clients[0].len() + 1);
+                        clients[0].insert(at, Op::Ctl { what: 40, arg: 0 });
+                    }
+                }
+                // a quarter of these: no event listener at all (the disk hand-off must not depend on one)
+                if rng.chance(1, 4) {
+                    cfg.insert("no_listener".into(), 1);
+                }
             } else {
                 for _ in 0..(2 + rng.below(3)) {
                     let n_ops = (3 + rng.below(5)) * scale;
